@@ -431,6 +431,34 @@ func c19Run(c *engine.Ctx) {
 			}
 		}
 	})
+	// (B2b) extension tables of every width: one extension (each of five codes, TDS and LAD/LOD among
+	// them - they refine the time and the position) that starts in column 36 and ends in every
+	// column 36..120, and the same behind a two-column extension; followed by a fix that is long
+	// enough for it (digits up to column 125), one that is one column short, and a plain one
+	for _, code := range []string{"TDS", "LAD", "LOD", "FXA", "ENL"} {
+		for stop := 36; stop <= 120; stop++ {
+			for _, first := range []string{"", "3637SIU"} {
+				start := 36
+				n := 1
+				if first != "" {
+					start, n = 38, 2
+					if stop < start {
+						continue
+					}
+				}
+				irec := fmt.Sprintf("I%02d%s%02d%02d%s", n, first, start, stop%100, code)
+				if stop >= 100 {
+					irec = fmt.Sprintf("I%02d%s%02d%d%s", n, first, start, stop, code) // not a valid table: three-digit column
+				}
+				base := "B1101015206343N00006198WA0058700558"
+				long := base + strings.Repeat("7", 125-len(base))
+				for _, b := range []string{long, long[:max(stop-1, len(base))], base} {
+					c.Count("extension_width_cases", 1)
+					c19Exec(c, c19Case{Mode: "lines", Lines: []string{"AXXX001", "HFDTE150785", irec, b, "B1101025206344N00006199WA0058800559" + strings.Repeat("1", 90)}}, note)
+				}
+			}
+		}
+	}
 	// (B3) over-long records: one line of 65535, 65536, 70000 and 2^20 bytes (a fix with trailing
 	// bytes, a comment, bytes that are no record at all) first after the opening, between two fixes
 	// and as the last line with and without a final newline - beyond the 64 KiB token limit of a
